@@ -102,6 +102,37 @@ theorem ply_mixed_type_group_not_claimed (binary : Bool) :
 example : (buildReader true [(nm "z", .float), (nm "x", .float), (nm "y", .float)]
       ⟨positionAttr, [nm "x", nm "y", nm "z"], false⟩).map (·.offs) = some [4, 8, 0] := by decide
 
+
+/-! ### findings: the ASCII vertex readers do not carry the declared scalar type -/
+
+theorem toInt32_ofInt32 (i : Int) (h : -(2 ^ 31 : Int) ≤ i ∧ i < 2 ^ 31) : toInt32 (ofInt32 i) = i := by
+  simp only [toInt32, ofInt32, UInt32.toNat_ofNat']
+  split <;> omega
+
+/-- `property int id`: binary loads the stored integer exactly, ASCII loads `ParseFloat(token, 32)` — for
+|i| > 2²⁴ that is a different number (witness `c08.holds.ascii_precision_witness`: 16777217 → 16777216) -/
+theorem ply_ascii_int_through_float32 (c : Coding α) (e : Endian) (q : Bytes) (i : Int) (x : α)
+    (hi : -(2 ^ 31 : Int) ≤ i ∧ i < 2 ^ 31) (hparse : c.parseF (showInt i) = some x) :
+    ∃ ba bb, buildV1 false [(q, .int)] q q = some ba ∧ buildV1 true [(q, .int)] q q = some bb ∧
+      ba.readAscii c [showInt i] = .ok [x] ∧
+      bb.readBin c e (put32 e (ofInt32 i)) = .ok [c.ofInt i] := by
+  refine ⟨⟨q, [q], [0], none⟩, ⟨q, [q], [0], some .int⟩, by simp [buildV1, buildV1.go], by simp [buildV1, buildV1.go], ?_, ?_⟩
+  · simp [Built.readAscii, hparse, pure, Except.pure, bind, Except.bind]
+  · have := put32_get32 e (ofInt32 i) []
+    simp at this
+    simp [Built.readBin, decScalarBin, this, toInt32_ofInt32 i hi, pure, Except.pure, bind, Except.bind]
+
+/-- `property uchar intensity` (unrecognised scalar): binary loads `b/255`, ASCII loads the raw number
+(same root cause as the C04 known finding; witness `c08.holds.uchar_scalar_ascii_witness`) -/
+theorem ply_ascii_uchar_scalar_not_normalised (c : Coding α) (e : Endian) (q : Bytes) (k : UInt8) (x : α)
+    (hparse : c.parseF (showNat k.toNat) = some x) :
+    ∃ ba bb, buildV1 false [(q, .uchar)] q q = some ba ∧ buildV1 true [(q, .uchar)] q q = some bb ∧
+      ba.readAscii c [showNat k.toNat] = .ok [x] ∧
+      bb.readBin c e [k] = .ok [c.div255 (c.ofInt k.toNat)] := by
+  refine ⟨⟨q, [q], [0], none⟩, ⟨q, [q], [0], some .uchar⟩, by simp [buildV1, buildV1.go], by simp [buildV1, buildV1.go], ?_, ?_⟩
+  · simp [Built.readAscii, hparse, pure, Except.pure, bind, Except.bind]
+  · simp [Built.readBin, decScalarBin, Coding.norm8, pure, Except.pure, bind, Except.bind]
+
 /-! ### the composed statement (residue) -/
 
 /-- representability of the stored values in their declared type and format (so that "the value of record i" is one
@@ -116,11 +147,35 @@ def SpecExact (c : Coding α) (f : SpecFile α) (valEq : α → α → Prop) : P
     | _, .f64 x => valEq (c.unf64 (c.f64 x)) x
     | _, _ => True
 
-/-- every file of the grammar (uniform type inside each recognised group, distinct property names, at least one face
-when a face element is present, indices in range, texcoord count = 2 × vertex count, no 8-bit unrecognised scalar in
-ASCII) loads without error to the mesh it denotes -/
-def ply_reads_spec_full (c : Coding α) (wellFormed : SpecFile α → Prop) (sameMesh : MeshVal α → MeshVal α → Prop) : Prop :=
-  ∀ f : SpecFile α, wellFormed f → SpecExact c f (· = ·) →
+/-- the guards of the composed statement, explicit: the class of files inside which the reader is right -/
+structure SpecGuards (f : SpecFile α) : Prop where
+  /-- property names are pairwise distinct -/
+  distinctNames : (f.vprops.map (·.name)).Nodup
+  /-- every record has one datum per property, of the property's type -/
+  typed : ∀ r ∈ f.verts, r.map Datum.ty = f.vprops.map (·.ty)
+  /-- only the scalar types of the grammar -/
+  vertexTypes : ∀ p ∈ f.vprops, p.ty = .uchar ∨ p.ty = .int ∨ p.ty = .float ∨ p.ty = .double
+  /-- GUARD (finding `ply_mixed_type_group_not_claimed`): one scalar type inside each recognised group -/
+  uniformGroups : ∀ g ∈ groups, ∀ ns, groupNames (f.vprops.map (·.name)) g = some ns →
+    ∃ t, ∀ p ∈ f.vprops, p.name ∈ ns → p.ty = t
+  /-- GUARD (finding `ply_ascii_uchar_scalar_not_normalised`): in ASCII no 8-bit property outside a recognised group -/
+  noUcharScalarAscii : f.format = .ascii → ∀ p ∈ f.vprops, p.ty = .uchar →
+    ∃ g ∈ groups, ∃ ns, groupNames (f.vprops.map (·.name)) g = some ns ∧ p.name ∈ ns
+  /-- `vector2.DivByConstant` multiplies by 1/255 (one ulp off b/255): no 8-bit `s`, `t` -/
+  noUcharST : ∀ p ∈ f.vprops, p.name = nm "s" ∨ p.name = nm "t" → p.ty ≠ .uchar
+  /-- faces: 3 or 4 vertex numbers, each a vertex of the file; two texture coordinates per listed vertex when
+  `texcoord` is declared; list lengths fit the declared count type -/
+  faces : ∀ fe, f.face = some fe →
+    (fe.cntTy = .uchar ∨ fe.cntTy = .int ∨ fe.cntTy = .uint) ∧ (fe.idxTy = .int ∨ fe.idxTy = .uint) ∧
+    ∀ fc ∈ fe.faces, (fc.verts.length = 3 ∨ fc.verts.length = 4) ∧ (∀ v ∈ fc.verts, v < f.verts.length) ∧
+      (match fe.tex with | some _ => fc.uv.length = 2 * fc.verts.length | none => fc.uv = []) ∧
+      fc.extra.length < 256
+
+/-- every file of the grammar inside the guards, whose stored values are representable in their declared type
+(GUARD, finding `ply_ascii_int_through_float32`: in ASCII, representable in float32), loads without error to the mesh
+it denotes.  NOT a theorem here (residue); checked on the implementation by `c08.holds.meaning` on every run. -/
+def ply_reads_spec_full (c : Coding α) (sameMesh : MeshVal α → MeshVal α → Prop) : Prop :=
+  ∀ f : SpecFile α, SpecGuards f → SpecExact c f (· = ·) →
     ∃ m m', readMesh c defaultReader (refEncode c f) = .ok m ∧ meaning c f = some m' ∧ sameMesh m m'
 
 end C08
